@@ -121,7 +121,9 @@ int aws_xml_parse(struct aws_allocator *allocator, const struct aws_xml_parser_o
             goto clean_up;
         }
 
-        const uint8_t *location = memchr(parser.doc.ptr, '>', parser.doc.len);
+        /* search the '>' that closes this '<', not one that precedes it: "><" would otherwise
+         * read past the end below and compute a wrapped length */
+        const uint8_t *location = memchr(start, '>', parser.doc.len - (size_t)(start - parser.doc.ptr));
         if (!location) {
             AWS_LOGF_ERROR(AWS_LS_COMMON_XML_PARSER, "XML document is invalid.");
             parser.error = aws_raise_error(AWS_ERROR_INVALID_XML);
@@ -293,7 +295,9 @@ int aws_xml_node_traverse(
             goto error;
         }
 
-        const uint8_t *end_location = memchr(parser->doc.ptr, '>', parser->doc.len);
+        /* text in front of the next node may contain '>': search from the '<' that was found */
+        const uint8_t *end_location =
+            memchr(next_location, '>', parser->doc.len - (size_t)(next_location - parser->doc.ptr));
 
         if (!end_location) {
             AWS_LOGF_ERROR(AWS_LS_COMMON_XML_PARSER, "XML document is invalid.");
